@@ -27,12 +27,12 @@ def _bits(space, v, width):
             cache = {}
     key = (v.get_id(), width)
     if key in cache:
-        return cache[key]
+        return cache[key][1]
     u = space.uniq()
     bits = [z3.Int("bit%s_%d" % (u, i)) for i in range(width)]
     space.add(z3.And([z3.And(b >= 0, b <= 1) for b in bits]))
     space.add(v == z3.Sum([bits[i] * (2**i) for i in range(width)]))
-    cache[key] = bits
+    cache[key] = (v, bits)  # v kept alive so its id cannot be reused
     return bits
 
 
@@ -103,12 +103,24 @@ def _sparse_const(space, op, xv, c):
     only the digits of x at c's bit positions are needed (digit_i = (x div 2^i) mod 2)."""
     if c < 0 or bin(c).count("1") > 12:
         return None
+    # bits already known to be set in this term (it is itself the result of `y | c0` on this
+    # path): (y | c0) | c == y | c0 whenever c is a subset of c0 -- no solver work needed
+    ones = getattr(space, "_vf_known_ones", None)
+    if ones is None:
+        try:
+            ones = space._vf_known_ones = {}
+        except AttributeError:
+            ones = {}
+    if op is ops.or_ and (ones.get(xv.get_id(), (None, 0))[1] & c) == c:
+        return xv
     if space.is_possible(xv < 0):
         return None
     pos = [i for i in range(c.bit_length()) if c >> i & 1]
     digs = [(xv / (2**i)) % 2 for i in pos]
     if op is ops.or_:
-        return xv + z3.Sum([(1 - d) * (2**i) for i, d in zip(pos, digs)])
+        r = xv + z3.Sum([(1 - d) * (2**i) for i, d in zip(pos, digs)])
+        ones[r.get_id()] = (r, c | ones.get(xv.get_id(), (None, 0))[1])  # the term is kept alive so its id cannot be reused
+        return r
     if op is ops.xor:
         return xv + z3.Sum([(1 - 2 * d) * (2**i) for i, d in zip(pos, digs)])
     if op is ops.and_:
@@ -280,7 +292,7 @@ def _byte_key(seq):
     key = []
     for x in seq:
         if isinstance(x, bl.SymbolicInt):
-            key.append(x.var.get_id())
+            key.append(x.var.get_id())  # the terms are kept alive by the memo entry (see _to_bytes)
         elif isinstance(x, int):
             key.append(("c", int(x)))
         else:
@@ -305,7 +317,7 @@ def _to_bytes(self, *a, **kw):
             if inner is not None and isinstance(self, bl.SymbolicInt) and isinstance(byteorder, str):
                 key = _byte_key(list(inner))
                 if key is not None:
-                    _memo(context_statespace())[(key, byteorder, signed)] = self
+                    _memo(context_statespace())[(key, byteorder, signed)] = (self, [x.var for x in inner if isinstance(x, bl.SymbolicInt)])
         except Exception:
             pass
     return res
@@ -322,6 +334,7 @@ def _from_bytes(b, *a, **kw):
                 key = _byte_key(list(inner))
                 if key is not None:
                     hit = _memo(context_statespace()).get((key, byteorder, signed))
+                    hit = hit[0] if hit is not None else None
         except Exception:
             hit = None
         if hit is not None:
